@@ -24,7 +24,8 @@ def parseItem (i : Nat) (t : String) : Option Item :=
                else if c = 'b' then some blsID else none
     let ok? := if v = '1' then some true else if v = '0' ∨ v = '2' then some false
                else if c = 'e' ∧ v = '3' then some true else if c = 'e' ∧ v = '4' then some false
-               else if c = 'b' ∧ (v = '5' ∨ v = '6') then some false else none
+               else if c = 'b' ∧ (v = '5' ∨ v = '6') then some false
+               else if c = 's' ∧ (v = '7' ∨ v = '9') then some false else if c = 's' ∧ v = '8' then some true else none
     match ty?, ok? with
     | some ty, some ok => some (i, ty, ok)
     | _, _ => none
